@@ -10,16 +10,27 @@ SETTINGS = [(40, 0), (8, 300), (3, 300), (200, 100), (15, 600), (2, 0)]   # (mea
 THREADS = (2, 3, 4, 8, 16, 64)
 
 
-def run_one(v, img, nt, seed, gap, pyw, poison):
-    lab = np.full(img.shape, poison[0], np.int32)
-    wrk = np.full(img.shape, poison[1], np.uint8)
-    v.begin(seed, nt, gap, pyw, 1)
+BUF = {}
+
+
+def run_one(v, img, nt, seed, gap, pyw, poison, mode=1):
+    # the same two buffers are re-used for every run on one image so that the addresses seen by the profiling passes
+    # of the race-directed mode are those of the scheduled runs
+    key = img.shape
+    if key not in BUF:
+        BUF.clear()
+        BUF[key] = (np.empty(img.shape, np.int32), np.empty(img.shape, np.uint8))
+    lab, wrk = BUF[key]
+    lab[...] = poison[0]
+    wrk[...] = poison[1]
+    v.begin(seed, nt, gap, pyw, mode)
     v.region("data", img, klib.R)
     rl = v.region("labels", lab, klib.RW, track=True)
     rw = v.region("wrk", wrk, klib.RW, track=True)
     n = v.lib.localmaxlabel(klib.ptr(img), klib.ptr(lab), klib.ptr(wrk), img.shape[0], img.shape[1])
     st = v.stats()
-    return n, lab, st, (rl, rw)
+    st["parks"] = int(v.lib.vrt_parks())
+    return n, lab.copy(), st, (rl, rw)
 
 
 def main():
@@ -36,7 +47,11 @@ def main():
         r = rng(cs["img_seed"], "C13", "sched", cs["index"])
         img = c13.gen_image(r, tuple(cs["shape"]), cs["cls"])
         want, npk, plen = c13.ref_dense(img)
-        n, lab, st, _ = run_one(v, img, cs["threads"], cs["sched_seed"], cs["gap"], cs["pyw"], tuple(cs["poison"]))
+        v.lib.vrt_profile_clear()
+        for pm in (2, 3):
+            run_one(v, img, cs["threads"], 1, 50, 0, (0, 0), mode=pm)
+        n, lab, st, _ = run_one(v, img, cs["threads"], cs["sched_seed"], cs["gap"], cs["pyw"], tuple(cs["poison"]),
+                                mode=cs.get("mode", 1))
         if n != npk or not np.array_equal(lab, want):
             out["violations"].append(dict(key="localmaxlabel:controlled-schedule", what="replayed: %d pixels differ"
                                           % int((lab != want).sum()), replay=cs))
@@ -55,12 +70,21 @@ def main():
         for ti, nt in enumerate(THREADS):
             block = max(1, img.size // nt)
             bad_here = False
+            # race-directed: two sequential profiling passes, then every third run parks threads at the hot accesses
+            v.lib.vrt_profile_clear()
+            for pm in (2, 3):
+                run_one(v, img, nt, 1, 50, 0, (0, 0), mode=pm)
+            count("hot_code_locations", int(v.lib.vrt_hot_count()))
             for k in range(nseeds):
                 gap, pyw = SETTINGS[(k + ti) % len(SETTINGS)]
                 sseed = int(r.integers(1, 2 ** 62))
                 poison = [(0, 0), (-77, 9), (2 ** 30, 200)][k % 3]
-                n, lab, st, regs = run_one(v, img, nt, sseed, gap, pyw, poison)
+                mode = 4 if k % 3 == 2 else 1
+                n, lab, st, regs = run_one(v, img, nt, sseed, gap, pyw, poison, mode=mode)
                 count("controlled_runs")
+                if mode == 4:
+                    count("race_directed_runs")
+                    count("parks_at_shared_accesses", st["parks"])
                 count("instrumented_accesses", st["accesses"])
                 count("baton_switches", st["switches"])
                 hashes.add((idx, nt, st["schedule_hash"]))
@@ -93,7 +117,7 @@ def main():
                                  "(threads %d, scheduler seed %d, gap %d, yield-after-write %d/1000, %d switches); "
                                  "replays exactly" % (int((lab != want).sum()), nt, sseed, gap, pyw, st["switches"]),
                             replay=dict(source="sched", index=idx, img_seed=seed, shape=shape, cls=cls, threads=nt,
-                                        sched_seed=sseed, gap=gap, pyw=pyw, poison=poison)))
+                                        sched_seed=sseed, gap=gap, pyw=pyw, poison=poison, mode=mode)))
             out["cases"].append(dict(descriptor=[cls, list(shape), hash(img.tobytes()), nt, "sched"],
                                      nontrivial=bool(npk >= 2 or plen > block),
                                      sample=dict(source="sched", shape=shape, cls=cls, threads=nt, seeds=nseeds,
